@@ -116,6 +116,10 @@ type bucketData struct {
 	lastModified time.Time
 	versionID    gofakes3.VersionID
 	deleteMarker bool
+
+	// nullVersion is true if this version was written while versioning was not
+	// enabled; only such a version may be replaced in place.
+	nullVersion bool
 	body         []byte
 	hash         []byte
 	etag         string
@@ -214,7 +218,12 @@ func (b *bucket) put(name string, item *bucketData) {
 		b.objects.Set(name, object)
 	}
 
-	if b.versioning == gofakes3.VersioningEnabled {
+	item.nullVersion = b.versioning != gofakes3.VersioningEnabled
+
+	// The current version is archived when versioning is enabled, and also when
+	// it was created while versioning was enabled: writes made while versioning
+	// is suspended must not destroy it.
+	if b.versioning == gofakes3.VersioningEnabled || (object.data != nil && !object.data.nullVersion) {
 		if object.data != nil {
 			if object.versions == nil {
 				object.versions = skiplist.NewCustomMap(func(l, r interface{}) bool {
@@ -241,14 +250,32 @@ func (b *bucket) rm(name string, at time.Time) (result gofakes3.ObjectDeleteResu
 		result.IsDeleteMarker = true
 		result.VersionID = item.versionID
 
+	} else if b.versioning == gofakes3.VersioningSuspended && object.data != nil && !object.data.nullVersion {
+		// The current version was created while versioning was enabled, so it
+		// has to survive: hide it behind a (null) delete marker instead.
+		item := &bucketData{lastModified: at, name: name, deleteMarker: true}
+		b.put(name, item)
+		result.IsDeleteMarker = true
+
 	} else {
-		object.data = nil
-		if object.versions == nil || object.versions.Len() == 0 {
-			b.objects.Delete(name)
-		}
+		object.dropCurrent(b)
 	}
 
 	return result, nil
+}
+
+// dropCurrent removes the current version. The most recent of the remaining
+// versions, if any, becomes the current one; otherwise the object is gone.
+func (b *bucketObject) dropCurrent(bucket *bucket) {
+	b.data = nil
+	if b.versions != nil && b.versions.Len() > 0 {
+		last := b.versions.SeekToLast()
+		b.data = last.Value().(*bucketData)
+		last.Close()
+		b.versions.Delete(b.data.versionID)
+	} else {
+		bucket.objects.Delete(b.name)
+	}
 }
 
 func (b *bucket) rmVersion(name string, versionID gofakes3.VersionID, at time.Time) (result gofakes3.ObjectDeleteResult, rerr error) {
@@ -259,7 +286,8 @@ func (b *bucket) rmVersion(name string, versionID gofakes3.VersionID, at time.Ti
 	} else if object.data != nil && object.data.versionID == versionID {
 		result.VersionID = versionID
 		result.IsDeleteMarker = object.data.deleteMarker
-		object.data = nil
+		object.dropCurrent(b)
+		return result, nil
 
 	} else if object.versions != nil {
 		versionIface, ok := object.versions.Delete(versionID)
